@@ -17,12 +17,12 @@ RULE = ("case = one command history over one TCP connection against a fresh data
 ASSUMPTIONS = [
     "Model/Resp.v is hand-written from crates/sierradb-server/src/{server.rs,request.rs,request/*.rs} and the single-node paths of sierradb-cluster/src/{read.rs,write/*.rs}; tie = this differential run",
     "requests are modelled after the command grammar (the grammar itself is C21): the harness labels a request as outside the grammar from its template, the model answers INVALIDARG",
-    "the storage engine is represented by Model/StoreSpec.v (the reference the engine is proved against in C01-C05); a transaction always fits into a segment here (4 MiB segments, payloads <= 300 bytes)",
+    "the storage engine is represented by Model/StoreSpec.v (the reference the engine is proved against in C01-C05); a transaction always fits into a segment here (1 MiB segments, payloads <= 300 bytes)",
     "event names, payloads, metadata and stored timestamps are not part of the model: the harness compares what reads return with what it sent (body=ok)",
     "event ids are unique per accepted event in the generated histories (StoreSpec's read_event returns the first, the engine's index the last of duplicates)",
     "numbers >= 2^63 in replies (`as i64` casts) are not modelled: sequences and versions stay far below",
     "single node, replication factor 1: forwarding, replicas and quorum failures are not exercised; the debug build is used (overflow checks on)",
-    "subscriptions (ESUB/EPSUB) are covered by C09 (delivery) and C21 (grammar); not exercised here",
+    "subscriptions are covered by C09 (delivery) and C21 (grammar); here only EPSUB <partition> FROM 0: the subscribe confirmation and the first pushed events (those already confirmed)",
 ]
 TRUSTED = ["the raw RESP3 client and canonicaliser in harness/c22 (uuids -> symbols by first occurrence, clock timestamps -> T)"]
 
@@ -247,6 +247,16 @@ def _walk(c, o):
                     f = lambda W: [e for e in sh.parts.get(pid, []) if e["seq"] < W and e["seq"] >= lo and (hi is None or e["seq"] <= hi)]
                     v = _check_scan(sh, f"`{what}`", r, f, cnt, ws(pid))
                     if v: return v
+            elif kind == "U":
+                pid = int(t[1])
+                m = re.match(r"sub \[(.*)\]$", r)
+                if not m: return ("subscription", f"`{what}` (EPSUB {pid} FROM 0): {r[:160]}")
+                got = _events(r)
+                ok = False
+                for W in ws(pid):
+                    want = [e for e in sh.parts.get(pid, []) if e["seq"] < W]
+                    if len(got) == len(want) and not any(_same(sh, g, w_) for g, w_ in zip(got, want)): ok = True
+                if not ok: return ("subscription", f"`{what}` (EPSUB {pid} FROM 0) delivered {len(got)} events, the partition has {sh.plen(pid)} confirmed: {r[:160]}")
             elif kind == "V":
                 n = int(t[1][2:]); o_ = _opts(t[2:])
                 if err: return ("read_refused", f"`{what}`: answered with {r[:80]}")
@@ -297,34 +307,24 @@ def nontrivial(c, o):
 
 def shrink_key(c): return (len(c), c)
 
-def shrink(v, run):
-    """delta-debug the command list of the failing history (the header stays)"""
-    c, o, cls, msg = v
+SHRINK_BUDGET = 80
+def shrink_candidates(c):
+    """smaller histories for bin/check's greedy delta debugging: the command list with a chunk removed
+    (halves first, single commands last); the header stays"""
     h, _, cs = c.partition(" :: ")
     cmds = cs.split(" ; ")
-    def fails(cm):
-        line = h + " :: " + " ; ".join(cm)
-        pairs = run([line])
-        if not pairs: return None
-        m = monitor(pairs[0][0], pairs[0][1])
-        return (pairs[0][0], pairs[0][1], m[0], m[1]) if m and m[0] == cls else None
-    best = v
-    n = 2
-    while len(cmds) >= 2 and n <= len(cmds):
-        chunk = max(1, len(cmds) // n)
-        reduced = False
-        for i in range(0, len(cmds), chunk):
-            cand = cmds[:i] + cmds[i + chunk:]
-            if not cand: continue
-            r = fails(cand)
-            if r:
-                cmds, best, reduced = cand, r, True
-                n = max(2, n - 1)
-                break
-        if not reduced:
-            if chunk == 1: break
-            n = min(len(cmds), n * 2)
-    return best
+    n = len(cmds)
+    if n < 2: return
+    size = n // 2
+    seen = set()
+    while size >= 1:
+        for i in range(0, n, size):
+            cand = cmds[:i] + cmds[i + size:]
+            if cand:
+                line = h + " :: " + " ; ".join(cand)
+                if line not in seen:
+                    seen.add(line); yield line
+        size //= 2
 
 # ---- extraction cross-check: the prefix of a history without unquiesced appends, evaluated inside Coq ----
 def _uu(sym, keys, dflt):
@@ -385,7 +385,7 @@ def coq_goal(c, e):
                 sel = f"(PsKey {_uu(t[1], keys, dflt)})" if t[1][0] == "k" else f"(PsId {int(t[1])})"
                 steps.append(f"StReq (RqPSeq {sel})")
             elif kind == "X": steps.append("StReq RqMalformed")
-            else: return None
+            else: break
             # fingerprint of the expected reply (what rs_fp computes) and the confirmation that follows an append
             if r.startswith("ERR "):
                 code = r.split()[1]
